@@ -418,7 +418,7 @@ theorem exitE_W (cfg : ECfg) (hp : PlainW cfg) (k : Kind) (s2 w2 : ESt) (d tl2 f
     (F : EFrame) (rest : List EFrame) (o : Obs)
     (hb : F.b = plainFrame k f t0 d) (hev : ∀ e ∈ F.evs, e.time = t0)
     (hfr : s2.frames = withW F wr :: rest) (hg : GoodW s2 (d + 1) tl2) (hsw : SameWatch s2 w2)
-    (ht0 : t0 ≤ tl2) (ht : tl2 + 2 ≤ t1) (hroom : s2.pend.length + nsrc cfg ≤ MAX_EVENT)
+    (ht0 : t0 ≤ tl2) (ht : tl2 + 2 ≤ t1) (htu : t1 < u64) (hroom : s2.pend.length + nsrc cfg ≤ MAX_EVENT)
     (hinit : cfg.watch = true → s2.winited = true)
     (hwr : wr = true → markToE rest = rest) :
     (exitE cfg s2 t1 o).out =
@@ -447,7 +447,7 @@ theorem exitE_W (cfg : ECfg) (hp : PlainW cfg) (k : Kind) (s2 w2 : ESt) (d tl2 f
     (withW (exitFrame cfg F t1 d o) wr) rest cfg.base.threshold (!(withW F wr).b.cyg && (withW F wr).retFl) o
     (by
       have hlt : t0 < t1 := by omega
-      have := durOk_of_lt cfg.base t0 t1 hlt
+      have := durOk_sub_of_lt cfg.base t0 t1 hlt htu
       simpa [hp.thr, hst, setEnd, withW] using this) hp.t.caller
   rw [hrec] at hu
   -- the watch events of the exit hook
@@ -575,9 +575,10 @@ mutual
 end
 
 mutual
-  /-- consecutive hooks are at least 2 ns apart; `tl` = time of the hook before the history -/
+  /-- consecutive hooks are at least 2 ns apart on the 64-bit clock; `tl` = time of the hook before
+      the history -/
   def ECall.spaced (tl : Nat) : ECall → Prop
-    | .node _ t0 t1 _ _ kids => tl + 2 ≤ t0 ∧ kids.spaced t0 ∧ kids.last t0 + 2 ≤ t1
+    | .node _ t0 t1 _ _ kids => tl + 2 ≤ t0 ∧ kids.spaced t0 ∧ kids.last t0 + 2 ≤ t1 ∧ t1 < u64
   def ECalls.spaced (tl : Nat) : ECalls → Prop
     | .nil => True
     | .cons c rest => c.spaced tl ∧ rest.spaced c.lastT
@@ -682,7 +683,7 @@ theorem emitW_call (cfg : ECfg) (hp : PlainW cfg) (k : Kind) :
       obtain ⟨x1, x2, x3, x4, x5, x6⟩ := exitE_W cfg hp k (entryE cfg k s f t0 oE).1
         (wNext cfg w (entryFrame cfg k f t0 d oE).b d oE) d t0 f t0 t1 false
         (entryFrame cfg k f t0 d oE) s.frames oX hFb hFev (by rw [e3, withW_self _ _ hFw]) e6 e5
-        (by omega) (by simpa [ECalls.last] using hsp.2.2) hr.2.2 e7 (by simp)
+        (by omega) (by simpa [ECalls.last] using hsp.2.2.1) hsp.2.2.2 hr.2.2 e7 (by simp)
       refine ⟨?_, x2, x3, ?_, ?_, x6⟩
       · rw [x1, e2, e4, withW_self _ _ hFw, hOE]
         simp [specWCall, specWCalls, List.append_assoc]
@@ -697,7 +698,7 @@ theorem emitW_call (cfg : ECfg) (hp : PlainW cfg) (k : Kind) :
         (specWCalls cfg k (d + 1) (wNext cfg w (entryFrame cfg k f t0 d oE).b d oE) (.cons c rest)).2
         d ((ECalls.cons c rest).last t0) f t0 t1 true
         (entryFrame cfg k f t0 d oE) (markToE s.frames) oX hFb hFev k2 k5 k4
-        hle hsp.2.2 hr.2.2 (fun hw => k6 hw (e7 hw)) (fun _ => markToE_markToE _)
+        hle hsp.2.2.1 hsp.2.2.2 hr.2.2 (fun hw => k6 hw (e7 hw)) (fun _ => markToE_markToE _)
       refine ⟨?_, by rw [x2, markToE_markToE], x3, ?_, ?_, x6⟩
       · rw [x1, k1, k3, e2, e3, e4, hOE, owed_written _ _ _ (by simp)]
         simp [specWCall, List.append_assoc]
